@@ -553,7 +553,8 @@ class DocumentMapper:
         start_split_adjustment = 0
 
         if first_real_span:
-            local_start = start_idx - first_real_span.start
+            # the range may begin in virtual text (a marker, a wrapper) in front of the first real span: nothing of that span is skipped
+            local_start = max(0, start_idx - first_real_span.start)
             # offset inside the run, not inside the span: a run with line breaks and markers has several spans
             run_offset = self._offset_in_run(first_real_span) + local_start
             if run_offset > 0:
